@@ -148,11 +148,11 @@ def replay_file(path):
     warm(rec["features"])
     r = run_one(job, 1500)
     prop = rec.get("property", "C11")
+    # one Miri process covers a small range of cases: it may report a model-level violation for one
+    # case and still die of UB in a later one, so every class seen in the re-run counts
+    keys = [f"{prop}/under-miri/" + x["key"] for x in r["lines"] if x.get("type") == "violation"]
     if r.get("timeout"):
-        key = f"{prop}/miri/{rec['scenario']}/does-not-terminate"
+        keys.append(f"{prop}/miri/{rec['scenario']}/does-not-terminate")
     elif r.get("miri_error"):
-        key = f"{prop}/miri/{rec['scenario']}/{r['miri_error']} @ {r['site']}"
-    else:
-        keys = [f"{prop}/under-miri/" + x["key"] for x in r["lines"] if x.get("type") == "violation"]
-        key = rec["key"] if rec["key"] in keys else (keys[0] if keys else None)
-    return {"reproduced": key == rec["key"], "key": key, "expected": rec["key"]}
+        keys.append(f"{prop}/miri/{rec['scenario']}/{r['miri_error']} @ {r['site']}")
+    return {"reproduced": rec["key"] in keys, "keys": keys, "expected": rec["key"]}
